@@ -13,9 +13,15 @@ the operation.  Nothing is re-proved here except two one-line glue facts
 validation accepted; renumbering after `_minify` keeps the keys = states shape).
 
 Which `validate`.  DFA and NFA results are checked with `AV.DFA.validate` / `AV.NFA.validate`
-(Model/DFA.lean, Model/NFA.lean) — these ARE the DFA / NFA validate models of C19
-(`C19_dfa_validate_iff`, `C19_nfa_validate_iff` are about them) and the ones tied to the code
-by the correspondence of C01 / C04 / C08.  GNFA results are checked with
+(Model/DFA.lean, Model/NFA.lean) — the ones tied to the code by the correspondence of C01 / C04 /
+C08, and the DFA / NFA validate models of C19 for name types that cannot express the two
+reserved names: `C19_dfa_validate_iff` / `C19_nfa_validate_iff` are about `validateDef R` =
+"`_validate_reserved_names()` (no state named `None`, `""` not an input symbol — fixes b159ae7,
+07f4843) under the interpretation `R` of the names, then `validate`", and `C19_reserved_absent`
+says `validateDef Reserved.absent = validate`.  The operation models below work on such name
+types (`none : Option σ` is the sink of a DFA run, `none : Option α` is λ; neither can be a
+name), so a result that passes `validate` passes the complete check; on the real code the
+reserved-name check of every result is part of the sampled re-validation (harness/ops/C19.py).  GNFA results are checked with
 `AV.GNFA.validateStr simpleRxValid` (Model/GNFAValidate.lean, the model used by C12 and run by
 its driver: string labels, `re._validate` modelled at character level for labels without `{`),
 NOT with `AV.VA.GNFA.validate` of Model/ValidateAll.lean, which represents a label abstractly
@@ -48,6 +54,7 @@ All of these, and every field below again, are additionally SAMPLED on the real 
 harness/ops/C19.py (every result of every public operation re-validated).
 -/
 import AutomataVerif.Props.C19
+import AutomataVerif.Props.C19c
 import AutomataVerif.Props.C04
 import AutomataVerif.Props.C05
 import AutomataVerif.Props.C07
